@@ -198,6 +198,8 @@ def dg_specs(case):
 
 def oracle_dgram(case, evs):
     drv, tr, plen, psize, seed, nsend, window, mkind, mcount, n = case[1:11]
+    # the control length the harness passes to recv_msg_multi (harness/rt/src/bin/c14.rs, RunC14.msg_multi_clen)
+    msg_multi_clen = [64, 20, 33, 16, 7][(n + mcount) % 5]
     specs = dg_specs(case)
     addrs = {}
     queue = []
@@ -250,7 +252,7 @@ def oracle_dgram(case, evs):
                 eff = plen
                 st = managed_state(data[:eff])
             elif rk in (12, 13):
-                eff = plen if drv == 1 else plen - 16 - 128 - (64 if rk == 13 else 0)
+                eff = plen if drv == 1 else plen - 16 - 128 - (msg_multi_clen if rk == 13 else 0)
                 st = managed_state(data[:eff])
             else:
                 return "unknown receive kind %d" % rk
